@@ -20,7 +20,7 @@ CHARS = ASCII_CHARS + ["\t", "\n"] + LATIN
 LIGATURES = {"--", "``", "''", "!`", "?`"}
 SAFE_URLS = ["http://example.org/a_b", "https://example.org/path/to-page.html", "www.example.com/index", "http://a.b/c?d=e#frag"]
 RISKY_URLS = ["https://a.b/c?d=e&f=g", "www.example.com/~user", "http://a.b/c%20d", "http://a.b/{x}", "http://a.b/x$y"]
-MATH = ["$x_1$", "$\\alpha + \\beta$", "$a < b$", "$\\frac{a}{b}$", "$E = mc_2$", "$x$"]
+MATH = ["$x_1$", "$\\alpha + \\beta$", "$a < b$", "$\\frac{a}{b}$", "$E = mc_2$", "$x$", "$a\\$b$", "$\\{x\\}$"]
 URL_RE = re.compile(r"https?://\S*\.\S*|www.\S*\.\S*")
 OPTION_SETS = {
     "default": ({"mw": "LatexEncoding"}, {"mw": "LatexDecoding"}),
